@@ -55,7 +55,7 @@ func GenProduce(t *rapid.T, emptyBias int) Op {
 
 // GenResp draws one scripted DA response.
 func GenResp(t *rapid.T) world.SubmitResp {
-	k := rapid.SampledFrom([]string{"accept", "accept", "prefix", "timeout", "mempool", "toobig", "error", "acklost", "seqerr", "deadline"}).Draw(t, "resp")
+	k := rapid.SampledFrom([]string{"accept", "accept", "prefix", "timeout", "mempool", "toobig", "error", "acklost", "seqerr", "deadline", "canceled", "da-canceled"}).Draw(t, "resp")
 	r := world.SubmitResp{Kind: k}
 	if k == "prefix" {
 		r.K = rapid.IntRange(1, 3).Draw(t, "k")
